@@ -75,13 +75,13 @@ PROPS = {
         explanation='Verus (unbounded): the merge appends after the untouched prefix old(output); the chunked arm of map_col::task writes only at positions >= the number of pre-existing elements (offset + chunk.begin_idx). Kani (bounded): collect_into for Vec / SplitVec / FixedVec targets with symbolic pre-existing contents, map-only (ordered bag) and filtering (merge) pipelines, known and unknown source length, parallel and num_threads(1): result == existing ++ std chain. ' + MC_TEXT,
     ),
     'C07': dict(
-        level='model_checking', verus_units=['core'],
+        level='model_checking', verus_units=['core', 'redtasks'],
         kani=True,
         kani_select=dict(quick=r'^k_task_(map_fil|filtermap_fil)_col_x_n3|^k_glue_map_fil_col_x_n2c1|^k_api_par2_(map|fil)_collect_x',
                          thorough=r'^k_task_\w+_col_x_|^k_glue_\w+_col_x_|^k_api_\w+_collect_x_n'),
         trusted_base=[T1, T4, T5, RSCHED, STUBS, MODEL],
         assumptions=[TASK_BOUND, 'flat_map collect_x kernels are in the thorough tier only (each harness needs 6-10 min of CBMC time)'],
-        explanation='Verus (unbounded): Runner::run_map keeps exactly one vector per worker. Kani (bounded): each collect_x kernel task returns the multiset of survivors of its blocks; glue with the real SplitVec::append and collect_x through the API are multiset-equal to the std chain. ' + MC_TEXT,
+        explanation='Verus (unbounded): Runner::run_map keeps exactly one vector per worker; in the three collect_x kernel tasks the worker vector keeps what it collected and its length is the sum of the survivors of the chunks it pulled (RW25/RW26). Kani (bounded): each collect_x kernel task returns the multiset of survivors of its blocks; glue with the real SplitVec::append and collect_x through the API are multiset-equal to the std chain. ' + MC_TEXT,
     ),
     'C08': dict(
         level='proof', verus_units=['core'],
